@@ -93,7 +93,7 @@ CLAIMED = {
     "C15": dict(
         level="proof",
         technique="Lean 4 theorem over all caller scopes about a name-resolution model + kernel-decided closure of the table of every quote!/parse_quote! template regenerated from the source by a translator on every run + hostile-scope compiles and behaviour digest with the real macro",
-        text="Lean: for every two caller scopes that agree on `derive_more`, a template without escaping heads resolves every name identically (resolve_independent, all scopes, no bound); an escaping path head really is a dependency (escaping_path_depends); the table of all 247 templates of impl/src, regenerated from the working tree by the translator on every run, has no escaping head (all_templates_closed, decide +kernel), hence expansions_scope_independent for the current source. Tie: the translator is checked on every run (every template re-prints into its source span; id table vs names by gen-selfcheck; identifier sequences of the Lean table == extraction). Real macro: a 39-item corpus covering all 50 derives and their attribute modes compiled in a plain module, a #[no_implicit_prelude] module and a module redefining 80 prelude types / variants / traits (with the prelude traits' methods, blanket-implemented) / macros, plus a #![no_std] crate; the 127-entry behaviour digest must be identical in all modules. thorough: one module per redefined name and kind",
+        text="Lean: for every two caller scopes that agree on `derive_more`, a template without escaping heads resolves every name identically (resolve_independent, all scopes, no bound); an escaping path head really is a dependency (escaping_path_depends); heads are path heads, `::crate` paths, macros, methods (literal or interpolated name) and associated functions called through a type path; the table of all 247 templates of impl/src, regenerated from the working tree by the translator on every run, has no escaping head (all_templates_closed, decide +kernel), hence expansions_scope_independent for the current source. Tie: the translator is checked on every run (every template re-prints into its source span; id table vs names by gen-selfcheck; identifier sequences of the Lean table == extraction). Real macro: a 39-item corpus covering all 50 derives and their attribute modes compiled in a plain module, a #[no_implicit_prelude] module and a module redefining 80 prelude types / variants / traits (with the prelude traits' methods, blanket-implemented) / macros, plus a #![no_std] crate; the 127-entry behaviour digest must be identical in all modules. thorough: one module per redefined name and kind",
         note="Lean kernel; model regenerated by translator; rustc's name resolution is modelled (first segment / macro / method lookups), validated by the hostile compiles; built-in attributes and primitive-type shadowing are outside the model",
         ref="DESIGN.md §4 C15"),
     "C19": dict(
